@@ -37,7 +37,8 @@ META = {
                   "v5; DSE_V1/DSE_V2 layouts transcribed from the driver's own documentation of them (weaker evidence "
                   "there); compression modelled as an opaque function installed as the compressor; map entries in any "
                   "order. Requests outside the session layer's lattice and not named by the property (timestamp on "
-                  "v1/v2, unset values before v4, BATCH on v1, ...) are recorded, not judged.",
+                  "v1/v2, unset values before v4, BATCH on v1, ...) are recorded, not judged; likewise whether the "
+                  "Skip_metadata flag is sent for skip_meta=True (both forms accepted, the property does not name it).",
     "design_ref": "5.7 C03",
 }
 
@@ -89,6 +90,7 @@ def run(ctx):
     open_outcomes = {}
     seen = set()
     probes = []
+    skipmeta = {"requested": 0, "flag_sent": 0}
     for label, consts in runs(ctx):
         cfg = tlc.write_cfg(os.path.join(ctx.scratch, "WireRequests_%d.cfg" % len(ctx.extra.get("tlc_runs", []))),
                             constants=consts, invariants=INVARIANTS, deadlock=False)
@@ -118,6 +120,9 @@ def run(ctx):
                 oc[tag] = oc.get(tag, 0) + 1
             else:
                 ctx.traces_validated += 1
+            if st["expect"] == "frame" and case["o"].get("skip") and got[0] == "frame":
+                skipmeta["requested"] += 1
+                skipmeta["flag_sent"] += 1 if wb.param_flags(case, got[1], st["layout"]) & 0x02 else 0
             if nontrivial(st):
                 ctx.nontrivial(key)
             if ctx.evaluations % 4001 == 1:
@@ -133,6 +138,7 @@ def run(ctx):
     ctx.note("exhaustive", True)
     ctx.note("cases_per_family", per_family)
     ctx.note("outside_session_lattice_outcomes", open_outcomes)
+    ctx.note("skip_metadata_recorded_not_judged", skipmeta)
     ctx.note("rule", "one case = one TLC state (kind, pv, frame options, message options); distinct by the whole case; "
                      "non-trivial = at least one optional field / frame option set, or the expectation is a refusal")
 
